@@ -126,6 +126,11 @@ func (p *C18) Gen(seed uint64, e int, tier string) *scen.Scenario {
 			ex := scen.Pick(r, []string{`/opt/[^/]+/`, `^/srv/`, `/elsewhere/`})
 			sc.Setup = append(sc.Setup, scen.Op{Op: "add_path_re", Name: ex, Msg: scen.Pick(r, []string{"@", "~"})})
 			addedRe = append(addedRe, ex)
+			if r.Chance(1, 3) {
+				// the same expression registered once more (the table is a list: one removal takes one entry away)
+				sc.Setup = append(sc.Setup, scen.Op{Op: "add_path_re", Name: ex, Msg: scen.Pick(r, []string{"@", "~"})})
+				addedRe = append(addedRe, ex)
+			}
 		case c < 9 && len(addedRe) > 0:
 			sc.Setup = append(sc.Setup, scen.Op{Op: "remove_path_re", Name: scen.Pick(r, addedRe)})
 		case c < 10:
